@@ -153,10 +153,11 @@ package datafile
 //@ pred INV_reader(r) = r != nil && len(r.blockBuf) == 32768 && r.offset + 7 < 32768 && INV_df(r.dataFile) && r.blockID <= r.dataFile.lastBlockID + 1
 
 //@ func datafile.OpenFile
+//@   ownership
 //@   props C11 C02 C13
 //@   ensures [inv-df]  result1 == nil ==> INV_df(result0) && fresh(result0) && result0.ID == id && !result0.closed
 //@   assume  [ghost-kind] result1 == nil ==> result0.kind == suffix
-//@   ensures [durable] result1 == nil ==> result0.ReadWriter.durable == result0.ReadWriter.size && fresh(result0.ReadWriter) && len(result0.bufferedWrites) == 0 && arr(result0.bufferedWrites) == 0 && fresh(result0.headerBuf) && result0.ReadWriter.writes == 0
+//@   ensures [durable] result1 == nil ==> result0.ReadWriter.durable == result0.ReadWriter.size && fresh(result0.ReadWriter) && len(result0.bufferedWrites) == 0 && arr(result0.bufferedWrites) == 0 && fresh(result0.headerBuf) && owned(result0.headerBuf) && result0.ReadWriter.writes == 0
 //@   ensures [err]     result1 != nil ==> result0 == nil
 //@   ensures [foreign-errors] !engineErr(result1)
 //@   modifies nothing
